@@ -44,6 +44,25 @@ theorem read_blob_or_error {blob : Bytes} {s : SparseSt} {fetch : Fetch}
     b = (blob.drop off).take n :=
   (readAt_data hs hi h).1
 
+/-- the same through the sparse mount's file node (`sparseIndexFile.Read`): the request is answered with exactly
+    the blob's bytes of the range, or with EIO — and the session state is the one `ReadAt` left -/
+theorem mount_read_blob_or_error {blob : Bytes} {s : SparseSt} {fetch : Fetch}
+    (hs : SparseSetup blob s fetch) (hi : SparseInv blob s) (off n : Nat) :
+    (∀ b, (s.mountRead fetch off n).1 = some b → b = (blob.drop off).take n) ∧
+    (s.mountRead fetch off n).2 = (s.readAt fetch off n).2 ∧
+    SparseInv blob (s.mountRead fetch off n).2 := by
+  have hinv := (readAt_inv hs hi off n).1
+  unfold SparseSt.mountRead
+  cases hr : s.readAt fetch off n with
+  | mk r s' =>
+    rw [hr] at hinv
+    cases r with
+    | data b eof =>
+      refine ⟨fun b' hb => ?_, rfl, hinv⟩
+      simp at hb; subst hb
+      exact (readAt_data hs hi (by rw [hr])).1
+    | err => exact ⟨fun b' hb => by simp at hb, rfl, hinv⟩
+
 /-- pre-loading from a state file (any flags, any store failures) preserves the invariant -/
 theorem preload_keeps_invariant {blob : Bytes} {s : SparseSt} {fetch : Fetch}
     (hs : SparseSetup blob s fetch) (hi : SparseInv blob s) (init : Option (List Bool)) :
